@@ -165,6 +165,9 @@ pub fn schema() -> (Schema, Fields) {
     sb.add_date_field("sd", FAST);
     sb.add_text_field("ss", STRING | FAST);
     sb.add_bytes_field("sb", FAST);
+    // postings without positions (frequencies only) and JSON terms of every scalar type
+    sb.add_text_field("wf", TextOptions::default().set_indexing_options(TextFieldIndexing::default().set_tokenizer("default").set_index_option(IndexRecordOption::WithFreqs)));
+    sb.add_json_field("js", TEXT);
     (sb.build(), Fields { id, k, body, sv })
 }
 
@@ -189,6 +192,20 @@ pub fn make_doc(f: &Fields, id: u64, key: &str) -> TantivyDocument {
         d.add_text(field("ss"), ["a", "b", "c", "d"][(base + 1) as usize]);
         d.add_bytes(field("sb"), &[(base + 1) as u8][..]);
     }
+    let extra = |n: u32| tantivy::schema::Field::from_field_id(f.sv.field_id() + 5 + n);
+    // wf: the key (id % 3 + 1) times, and a token every document has
+    let mut wf = String::new();
+    for _ in 0..(id % 3 + 1) {
+        wf.push_str(key);
+        wf.push(' ');
+    }
+    wf.push_str("all");
+    d.add_text(extra(1), wf);
+    let mut obj: std::collections::BTreeMap<String, tantivy::schema::OwnedValue> = std::collections::BTreeMap::new();
+    obj.insert("n".to_string(), tantivy::schema::OwnedValue::I64((id % 3) as i64));
+    obj.insert("b".to_string(), tantivy::schema::OwnedValue::Bool(id % 2 == 0));
+    obj.insert("t".to_string(), tantivy::schema::OwnedValue::Str(key.to_string()));
+    d.add_object(extra(2), obj);
     d
 }
 
@@ -465,6 +482,65 @@ pub fn observe_searcher(searcher: &Searcher, f: &Fields) -> Result<Vec<MDoc>, (S
         let nb = searcher.search(&qb, &tantivy::collector::Count).map_err(|e| ("search_failed".to_string(), format!("{e:?}")))?;
         if nb != want {
             return Err(("postings_disagree".into(), format!("term query body:{key} counts {nb}, expected {want}")));
+        }
+    }
+    // frequency-only postings: every live document under its key with its term frequency
+    {
+        let wf = searcher.schema().get_field("wf").map_err(|e| ("reader_failed".to_string(), e.to_string()))?;
+        for key in ["a", "b", "all"] {
+            let term = Term::from_field_text(wf, key);
+            let mut seen: Vec<(u64, u32)> = vec![];
+            for seg in searcher.segment_readers() {
+                let ids = seg.fast_fields().u64("id").map_err(|e| ("reader_failed".to_string(), format!("{e:?}")))?;
+                let inv = seg.inverted_index(wf).map_err(|e| ("reader_failed".to_string(), format!("{e:?}")))?;
+                if let Some(mut p) = inv.read_postings(&term, IndexRecordOption::WithFreqs).map_err(|e| ("reader_failed".to_string(), format!("{e:?}")))? {
+                    use tantivy::postings::Postings;
+                    use tantivy::DocSet;
+                    while p.doc() != tantivy::TERMINATED {
+                        let d = p.doc();
+                        if d >= seg.max_doc() {
+                            return Err(("postings_disagree".into(), format!("wf:{key} posting list holds doc {d}, the segment has {} documents", seg.max_doc())));
+                        }
+                        if !seg.is_deleted(d) {
+                            seen.push((ids.first(d).unwrap_or(u64::MAX), p.term_freq()));
+                        }
+                        p.advance();
+                    }
+                }
+            }
+            seen.sort();
+            let mut want: Vec<(u64, u32)> = out.iter().filter(|d| key == "all" || d.key == key).map(|d| (d.id, if key == "all" { 1 } else { (d.id % 3 + 1) as u32 })).collect();
+            want.sort();
+            if seen != want {
+                return Err(("postings_disagree".into(), format!("frequency-only postings of wf:{key} list (id, tf) {seen:?}; the live documents give {want:?}")));
+            }
+        }
+    }
+    // JSON terms of every scalar type
+    {
+        let js = searcher.schema().get_field("js").map_err(|e| ("reader_failed".to_string(), e.to_string()))?;
+        let qp = tantivy::query::QueryParser::for_index(searcher.index(), vec![js]);
+        let mut probes: Vec<(String, Box<dyn Fn(&MDoc) -> bool>)> = vec![];
+        for n in 0..3u64 {
+            probes.push((format!("js.n:{n}"), Box::new(move |d: &MDoc| d.id % 3 == n)));
+        }
+        probes.push(("js.b:true".to_string(), Box::new(|d: &MDoc| d.id % 2 == 0)));
+        probes.push(("js.b:false".to_string(), Box::new(|d: &MDoc| d.id % 2 == 1)));
+        probes.push(("js.t:a".to_string(), Box::new(|d: &MDoc| d.key == "a")));
+        for (text, pred) in probes {
+            let q = qp.parse_query(&text).map_err(|e| ("search_failed".to_string(), format!("{text}: {e:?}")))?;
+            let hits = searcher.search(&q, &tantivy::collector::DocSetCollector).map_err(|e| ("search_failed".to_string(), format!("{e:?}")))?;
+            let mut got: Vec<u64> = vec![];
+            for a in hits {
+                let ids = searcher.segment_reader(a.segment_ord).fast_fields().u64("id").map_err(|e| ("reader_failed".to_string(), format!("{e:?}")))?;
+                got.push(ids.first(a.doc_id).unwrap_or(u64::MAX));
+            }
+            got.sort();
+            let mut want: Vec<u64> = out.iter().filter(|d| pred(d)).map(|d| d.id).collect();
+            want.sort();
+            if got != want {
+                return Err(("postings_disagree".into(), format!("JSON term query {text} matches ids {got:?}; the live documents give {want:?}")));
+            }
         }
     }
     out.sort_by_key(|d| d.id);
